@@ -30,13 +30,14 @@ def apply(F):
 ''')
     F.wrap([], r'pub fn labeled_extract\b')
 
-    F.contract([r'pub trait LabeledExpand\b'], r'fn labeled_expand\b', ret='r', clauses='''
+    LX = '''
         ensures
             final(out)@.len() == old(out)@.len(),
             /*@C02 C11 C13*/ r is Ok <==> old(out)@.len() <= 255 * self.lx_nh() && old(out)@.len() <= 0xffff,
             /*@C02 C11 C03 C01*/ r is Ok ==> final(out)@ == labeled_expand_spec(self.lx_nh(), self.lx_prk(), suite_id@, label@, info@, old(out)@.len()),
             /*@ext*/ r is Ok ==> forall|s2: Bytes, l2: Bytes, i2: Bytes| #![trigger labeled_expand_spec(self.lx_nh(), self.lx_prk(), s2, l2, i2, old(out)@.len())] s2 =~= suite_id@ && l2 =~= label@ && i2 =~= info@ ==> final(out)@ == labeled_expand_spec(self.lx_nh(), self.lx_prk(), s2, l2, i2, old(out)@.len())
-''')
+'''
+    F.contract([r'pub trait LabeledExpand\b'], r'fn labeled_expand\b', ret='r', clauses=LX)
     F.insert_in([], r'pub trait LabeledExpand\b', '''
     spec fn lx_nh(&self) -> nat;
     spec fn lx_prk(&self) -> Bytes;
@@ -45,5 +46,7 @@ def apply(F):
     open spec fn lx_nh(&self) -> nat { nh_of::<D>() }
     open spec fn lx_prk(&self) -> Bytes { self.prk() }
 ''')
-    F.contract([r'impl<D> LabeledExpand for hkdf::Hkdf<D, SimpleHmac<D>>'], r'fn labeled_expand\b', ret='r')
+    # the trait-level clauses are restated on the impl: Verus orders an impl method after the impl's own
+    # spec fns only if it mentions them statically (otherwise the definitions may be emitted too late)
+    F.contract([r'impl<D> LabeledExpand for hkdf::Hkdf<D, SimpleHmac<D>>'], r'fn labeled_expand\b', ret='r', clauses=LX.rstrip() + ',\n')
     F.wrap([], r'pub trait LabeledExpand\b', upto_rx=r'impl<D> LabeledExpand for hkdf::Hkdf<D, SimpleHmac<D>>')
